@@ -176,6 +176,7 @@ structure Env where
   writes : List Int                     -- per control-file write: bytes written, or -errno
   pidfd : List Nat                      -- per pidfd_open: errno
   mrelease : List Nat                   -- per process_mrelease: errno
+  events : List (Option Bool) := []     -- per fresh read of cgroup.events by the kernelkill branch: `populated` (none = unreadable)
 deriving Repr
 
 structure R (α : Type) where
@@ -228,6 +229,13 @@ def nextMrelease : M Nat := fun env =>
   match env.mrelease with
   | [] => ⟨[], env, 3⟩
   | a :: r => ⟨[], { env with mrelease := r }, a⟩
+
+/-- the kernelkill branch's own read of cgroup.events (`Fs::readIsPopulatedAt` on the held directory fd).  The file may have
+changed since the tick sampled it (processes exit on their own); when the stream is exhausted the answer is the sampled one. -/
+def nextEvents (sampled : Option Bool) : M (Option Bool) := fun env =>
+  match env.events with
+  | [] => ⟨[], env, sampled⟩
+  | a :: r => ⟨[], { env with events := r }, a⟩
 
 /-! ## `std::stoi` on a pre-existing counter xattr -/
 
@@ -380,7 +388,8 @@ def kernelCount (v : View) : Nat :=
 def kernelBranch (cfg : KillCfg) (v : View) : M (Option Nat) := do
   let f ← nextWrite
   emit (.write v.id .freeze f)                    -- failure only logged
-  match v.info.populated with                     -- fresh read of cgroup.events (same file as the cached flag)
+  let p ← nextEvents v.info.populated             -- fresh read of cgroup.events (not the tick's cached flag)
+  match p with
   | none => pure none
   | some false => pure (some 0)
   | some true => do
